@@ -1745,7 +1745,7 @@ class Engine:
         if isinstance(cur, VList) and op == "+":
             cur.items.extend(self.iter_concrete(rhs))
             return
-        if isinstance(cur, SymSeq) and isinstance(rhs, SymSeq) and op == "+":
+        if isinstance(cur, SymSeq) and isinstance(rhs, SymSeq) and op == "+" and not getattr(cur, "is_array", False):
             self.assign(st.target, self.seq_concat(cur, rhs), env)
             return
         self.assign(st.target, self.arith(op, cur, rhs, st), env)
